@@ -706,24 +706,57 @@ func checkHull(c hullCase) (o ev.Outcome) {
 	// a query that was asked for its hull half-way through the input and then
 	// given the rest ends with the same loop (the intermediate call must not
 	// leave state behind)
-	allPoints := true
-	for _, it := range c.Items {
-		allPoints = allPoints && it.Type == "points"
-	}
-	if allPoints { // (AddLoop / AddPolygon also feed the region's bound, which decides the full-loop switch)
+	// a reused query: asked for its hull and cap while still empty, again after
+	// the first half of the inputs, and then given the rest (each input through
+	// the same Add method as before) it ends with the same loop and a cap that
+	// holds every input point - earlier calls must not leave state behind
+	{
 		q2 := s2.NewConvexHullQuery()
-		half := len(pts) / 2
-		for _, p := range pts[:half] {
-			q2.AddPoint(p)
-		}
-		if half > 0 {
-			_ = q2.ConvexHull()
-		}
-		for _, p := range pts[half:] {
-			q2.AddPoint(p)
+		_ = q2.ConvexHull()
+		_ = q2.CapBound()
+		half := len(c.Items) / 2
+		for k, it := range c.Items {
+			if k == half && k > 0 {
+				_ = q2.ConvexHull()
+				_ = q2.CapBound()
+			}
+			switch it.Type {
+			case "points":
+				hp := len(it.V[0]) / 2
+				for j, p := range it.V[0] {
+					if j == hp && j > 0 {
+						_ = q2.CapBound()
+						_ = q2.ConvexHull()
+					}
+					q2.AddPoint(p.Pt())
+				}
+			case "polyline":
+				pl := s2.Polyline(gen.Pts(it.V[0]))
+				q2.AddPolyline(&pl)
+			case "loop":
+				q2.AddLoop(s2.LoopFromPoints(gen.Pts(it.V[0])))
+			case "reusedhole":
+				outer := s2.PolygonFromLoops([]*s2.Loop{s2.LoopFromPoints(gen.Pts(it.V[0])), s2.LoopFromPoints(gen.Pts(it.V[1]))})
+				for k := 0; k < outer.NumLoops(); k++ {
+					if outer.Loop(k).IsHole() {
+						q2.AddPolygon(s2.PolygonFromLoops([]*s2.Loop{outer.Loop(k)}))
+					}
+				}
+			case "polygon":
+				var ls []*s2.Loop
+				for _, v := range it.V {
+					ls = append(ls, s2.LoopFromPoints(gen.Pts(v)))
+				}
+				q2.AddPolygon(s2.PolygonFromLoops(ls))
+			}
 		}
 		if h3 := q2.ConvexHull(); !sameCyclic(hv, h3.Vertices()) {
-			o.Err = fmt.Sprintf("hull of the same %d points added in two stages with a ConvexHull() call in between differs (%d vs %d vertices)", len(pts), n, len(h3.Vertices()))
+			o.Err = fmt.Sprintf("the same inputs given to a query that had been asked for its hull / cap in between give a different hull (%d vs %d vertices)", n, len(h3.Vertices()))
+			o.Finding = "hull-incremental"
+			return o
+		}
+		if c1, c2 := q.CapBound(), q2.CapBound(); c1 != c2 {
+			o.Err = fmt.Sprintf("the same inputs given to a query that had been asked for its hull / cap in between give a different CapBound (%v vs %v)", c1, c2)
 			o.Finding = "hull-incremental"
 			return o
 		}
